@@ -72,12 +72,15 @@ pub fn alphas() -> [f64; 9] {
     [0.0, (2.0f64).powi(-60), 0.1, 0.25, 0.5, 0.75, 0.9, 1.0 - (2.0f64).powi(-53), 1.0]
 }
 
-/// Valid strengths (std_dev / bound), logged as 1-based index; index 9 = NaN (invalid).
-const STRENGTHS: [f64; 4] = [0.125, 0.5, 2.0, 8.0];
-const ST_BAD: i64 = 9;
+/// Valid strengths (std_dev / bound), strictly increasing from exactly 0 over tiny and ordinary
+/// to huge values up to `f64::MAX`, logged as 1-based index (`StTop` of the spec = 10; from index
+/// 9 = `StOver` on, a normal deviate times the strength leaves the finite range); index 90 = NaN
+/// (invalid).
+const STRENGTHS: [f64; 10] = [0.0, f64::MIN_POSITIVE, 1.0e-300, 0.125, 0.5, 2.0, 8.0, 1.0e300, 1.0e308, f64::MAX];
+const ST_BAD: i64 = 90;
 
 fn st_value(ix: i64) -> f64 {
-    if (1..=4).contains(&ix) {
+    if (1..=STRENGTHS.len() as i64).contains(&ix) {
         STRENGTHS[ix as usize - 1]
     } else {
         f64::NAN
@@ -826,7 +829,14 @@ fn exec_comp(raw: &Raw) -> (Value, Value) {
     match cs {
         "NormalMutation" | "UniformMutation" | "PartialRandomSpread" => {
             let problem = RealVar { dim: d, lo: -4.0, hi: 12.0 };
-            let pop = real_pop(&mut r, n, d, false);
+            // coordinates from the box, every fifth exactly 0 (a move from there is seen exactly,
+            // however tiny the strength)
+            let mut pop = real_pop(&mut r, n, d, false);
+            pop.iter_mut().flatten().for_each(|x| {
+                if r.gen_range(0..5) == 0 {
+                    *x = 0.0
+                }
+            });
             let o = run_comp(
                 &problem,
                 raw,
@@ -849,13 +859,20 @@ fn exec_comp(raw: &Raw) -> (Value, Value) {
                     2
                 }
             };
-            // least index of the strength table that bounds the move (5 = none does)
+            // least index of the strength table that bounds the move (one above the table = none
+            // does), up to the rounding of the sum and of the difference (none for a coordinate
+            // that was exactly 0)
             let mag = |j: usize, c: usize, x: f64| -> i64 {
                 if x.to_bits() == old(j, c).to_bits() {
                     return 0;
                 }
                 let delta = (x - old(j, c)).abs();
-                STRENGTHS.iter().position(|s| delta <= s * (1.0 + 1e-9) + 1e-12).map(|k| k as i64 + 1).unwrap_or(5)
+                let slack = if old(j, c) == 0.0 { 0.0 } else { ULPS * old(j, c).abs().max(x.abs()) };
+                STRENGTHS
+                    .iter()
+                    .position(|s| delta <= s * (1.0 + 1e-9) + slack)
+                    .map(|k| k as i64 + 1)
+                    .unwrap_or(STRENGTHS.len() as i64 + 1)
             };
             let project = |f: &dyn Fn(usize, usize, f64) -> i64| -> Vec<Vec<i64>> {
                 o.top.iter().enumerate().map(|(j, s)| s.iter().enumerate().map(|(c, &x)| f(j, c, x)).collect()).collect()
@@ -1036,15 +1053,13 @@ fn exec_comp(raw: &Raw) -> (Value, Value) {
 
 fn gen_prob(r: &mut ChaCha8Rng, allow_invalid: bool) -> f64 {
     match r.gen_range(0..10) {
-        0 | 1 => 0.0,
+        0 => 0.0,
+        1 => *[0.0, -0.0].choose(r).unwrap(),
         2 | 3 => 1.0,
-        4 if allow_invalid => {
-            if r.gen_bool(0.5) {
-                1.5
-            } else {
-                -0.25
-            }
-        }
+        // outside [0, 1]: clearly, by the least possible amount, hugely
+        4 if allow_invalid => *[1.5, -0.25, 1.0 + f64::EPSILON, -5e-324, f64::MAX, -f64::MAX].choose(r).unwrap(),
+        // inside (0, 1): the least positive floats, the largest float below 1, exactly 1/2
+        5 => *[5e-324, f64::MIN_POSITIVE, 1.0e-300, 1.0 - f64::EPSILON / 2.0, 0.5].choose(r).unwrap(),
         _ => r.gen_range(0.05..0.95),
     }
 }
@@ -1129,7 +1144,13 @@ fn gen_raw(c: &str, r: &mut ChaCha8Rng, edge: Option<usize>, k: usize) -> Raw {
             raw.dim = r.gen_range(1..=6);
             raw.rate = gen_prob(r, true);
             if has_strength(c) {
-                raw.st = if r.gen_range(0..12) == 0 { ST_BAD } else { r.gen_range(1..=3) };
+                // every table value below the largest ordinary one (the siblings get another,
+                // preferably larger one), the extreme ones twice as often
+                raw.st = if r.gen_range(0..12) == 0 {
+                    ST_BAD
+                } else {
+                    *[1, 1, 2, 2, 3, 4, 5, 6, 8, 8, 9, 9, 10, 10].choose(r).unwrap()
+                };
             }
         }
         "BitFlipMutation" | "PartialRandomBitstring" => {
@@ -1190,7 +1211,8 @@ fn gen_raw(c: &str, r: &mut ChaCha8Rng, edge: Option<usize>, k: usize) -> Raw {
             raw.np = *[1, 1, 1, 2, 2, 2, 0, 3].choose(r).unwrap();
             let size = (2 * raw.np + 1) as usize;
             raw.n = if r.gen_bool(0.7) { size * r.gen_range(0..=3) } else { r.gen_range(0..=11) };
-            raw.strength = *[0.5, 1.0, 2.0].choose(r).unwrap();
+            // documented: f in (0, 2]
+            raw.strength = *[0.5, 1.0, 2.0, 2.0, f64::MIN_POSITIVE, 5e-324, 1.0e-300, 1.0e-17].choose(r).unwrap();
         }
         "DEBinomialCrossover" | "DEExponentialCrossover" => {
             raw.dim = r.gen_range(1..=6);
@@ -1222,7 +1244,7 @@ fn gen_raw(c: &str, r: &mut ChaCha8Rng, edge: Option<usize>, k: usize) -> Raw {
                 ST_BAD
             } else {
                 // a different strength, preferably a larger one
-                *[1, 2, 3, 4].iter().filter(|s| **s != own).collect::<Vec<_>>().choose(r).copied().unwrap()
+                *(1..=STRENGTHS.len() as i64).filter(|s| *s != own).collect::<Vec<_>>().choose(r).unwrap()
             }
         };
         for o in others {
